@@ -8,7 +8,8 @@
 (* one run judges the whole batch.  Needs -workers 1.                                    *)
 EXTENDS JsonText, Json
 CONSTANT MaxBad        \* at most this many deviation records are kept per run (all are counted)
-CONSTANT Mode          \* "c01": accept/reject only; "c09": positions of rejected inputs only
+CONSTANT Mode          \* "c01": accept/reject only; "c09": positions of rejected inputs only;
+                       \* "c09m": the same for the multi-document front-ends (the input is a STREAM of JSON texts)
 
 Trace == ndJsonDeserialize("trace.ndjson")
 N == Len(Trace)
@@ -19,24 +20,32 @@ Padded == Step(S0, 32)
 ASSUME PadIsIdle == Step(Padded, 32) = Padded /\ ~Dead(Padded)
 StartSt(k) == IF Pad(k) > 0 THEN Padded ELSE S0
 
+\* A stream of JSON texts (multi-document mode of the front-ends: a callback, a channel, OnlyOne = false): when a text is complete the
+\* next byte that is not white space starts the next text; lines and columns count through the whole stream.  The statement is silent
+\* on texts that follow each other WITHOUT white space in between ("[1][2]", "null{}"): such a case is consumed but not judged (sil).
+StepM(s, b) == IF s.pc = "Done" /\ b \notin WS THEN StartValue([s EXCEPT !.pc = "Top"], b) ELSE Step(s, b)
+StepX(s, b) == IF Mode = "c09m" THEN StepM(s, b) ELSE Step(s, b)
+
 VARIABLES c,       \* case being consumed
           i,       \* next byte of the case
           errAt,   \* index of the byte on which the specification entered Err (0 = none)
           pre,     \* state before that byte
           ln,      \* current line (1-based): 1 + newlines consumed so far
-          nl       \* index of the last newline consumed (0 = none)
-tvars == <<st, hist, c, i, errAt, pre, ln, nl>>
+          nl,      \* index of the last newline consumed (0 = none)
+          sil      \* c09m: the case contains two texts not separated by white space (not judged)
+tvars == <<st, hist, c, i, errAt, pre, ln, nl, sil>>
 
-TraceInit == /\ st = StartSt(1) /\ hist = <<>> /\ c = 1 /\ i = 1 /\ errAt = 0 /\ pre = S0 /\ ln = 1 /\ nl = 0
+TraceInit == /\ st = StartSt(1) /\ hist = <<>> /\ c = 1 /\ i = 1 /\ errAt = 0 /\ pre = S0 /\ ln = 1 /\ nl = 0 /\ sil = FALSE
              /\ TLCSet(1, <<>>) /\ TLCSet(2, 0) /\ TLCSet(3, 0)
 
 TFeed == /\ c <= N /\ i <= Len(Trace[c].b) /\ ~Dead(st)
          /\ LET b == Trace[c].b[i] IN
-            /\ st' = Step(st, b)
-            /\ errAt' = IF Dead(Step(st, b)) THEN i ELSE 0
+            /\ st' = StepX(st, b)
+            /\ errAt' = IF Dead(StepX(st, b)) THEN i ELSE 0
             /\ pre' = st
-            /\ ln' = IF b = 10 /\ ~Dead(Step(st, b)) THEN ln + 1 ELSE ln
-            /\ nl' = IF b = 10 /\ ~Dead(Step(st, b)) THEN i ELSE nl
+            /\ ln' = IF b = 10 /\ ~Dead(StepX(st, b)) THEN ln + 1 ELSE ln
+            /\ nl' = IF b = 10 /\ ~Dead(StepX(st, b)) THEN i ELSE nl
+            /\ sil' = (sil \/ (Mode = "c09m" /\ st.pc = "Done" /\ b \notin WS /\ i > 1 /\ Trace[c].b[i - 1] \notin WS))
          /\ i' = i + 1 /\ UNCHANGED <<hist, c>>
 
 Bytes == Trace[c].b
@@ -57,14 +66,14 @@ BadC01(g) == IF g.r = 2 THEN [i |-> c, as |-> g.as, kind |-> "panic", loc |-> Re
 JudgeC01 == LET gs == SelectSeq(Trace[c].o, LAMBDA g : g.r # Expect) IN
             IF Silent THEN <<>> ELSE [k \in 1..Len(gs) |-> BadC01(gs[k])]
 \* C09: only inputs both sides reject, BOM-less
-JudgeC09 == IF Expect = 1 \/ HasBom THEN <<>>
+JudgeC09 == IF Expect = 1 \/ HasBom \/ sil THEN <<>>
             ELSE LET gs == SelectSeq(Trace[c].o, LAMBDA g : g.r = 0 /\ ~(g.pe /\ g.l = ExpLine /\ g.c = ExpCol)) IN
                  [k \in 1..Len(gs) |-> [i |-> c, as |-> gs[k].as, kind |-> IF gs[k].pe THEN "wrong-position" ELSE "no-position",
                                          loc |-> RejLocus, m |-> "", got |-> <<gs[k].l, gs[k].c>>, exp |-> <<ExpLine, ExpCol>>,
                                          nl |-> ExpLine > 1]]
 
 TEnd == /\ c <= N /\ (i > Len(Trace[c].b) \/ Dead(st))
-        /\ c' = c + 1 /\ i' = 1 /\ st' = StartSt(c + 1) /\ errAt' = 0 /\ pre' = S0 /\ ln' = 1 /\ nl' = 0 /\ UNCHANGED hist
+        /\ c' = c + 1 /\ i' = 1 /\ st' = StartSt(c + 1) /\ errAt' = 0 /\ pre' = S0 /\ ln' = 1 /\ nl' = 0 /\ sil' = FALSE /\ UNCHANGED hist
         /\ LET j == IF Mode = "c01" THEN JudgeC01 ELSE JudgeC09 IN
            /\ (IF j = <<>> \/ Len(TLCGet(1)) >= MaxBad THEN TRUE ELSE TLCSet(1, TLCGet(1) \o j))
            /\ (IF j = <<>> THEN TRUE ELSE TLCSet(3, TLCGet(3) + Len(j)))
